@@ -170,7 +170,12 @@ pub fn resolve_data_element(
     }
 
     
-    if Some(&prev_encoding) != maybe_encoding.as_ref()
+    let is_stable =
+        maybe_encoding
+            .as_ref()
+            .map_or(false, |e| prev_encoding.is_identical(e));
+
+    if !is_stable
     {
         // On the final iteration, unstable guesses become errors
         if ctx.is_last_iteration
